@@ -2,6 +2,7 @@ package props
 
 import (
 	"testing"
+	"time"
 
 	"pgregory.net/rapid"
 
@@ -29,7 +30,7 @@ func init() {
 		Gen: func(t *rapid.T) interface{} {
 			c := &SchedCase{QuiesMs: 1}
 			c.Rules = genRules(t, 1, 8, 15, 10, 50)
-			c.Builds = genBuilds(t, len(c.Rules))
+			genBuildsReplacing(t, c)
 			c.Pool = rapid.Bool().Draw(t, "pool")
 			c.Call.Method = rapid.SampledFrom(selectedMethods(c.Pool)).Draw(t, "method")
 			m, _ := gx.Lookup(c.Call.Method)
@@ -57,6 +58,13 @@ func init() {
 				} else {
 					c.Call.N, c.Call.M = genNM(t, k)
 				}
+			}
+			if !m.NM && len(c.Call.Names) >= 1 && pct(t, "duplicate_name", 10) {
+				// a repeated name: how often the rule runs is not defined by the statement, but
+				// "never an unselected rule" and "every named existing rule runs" still are
+				d := c.Call.Names[uni(t, "dup_which", 0, len(c.Call.Names)-1)]
+				pos := uni(t, "dup_pos", 0, len(c.Call.Names))
+				c.Call.Names = append(c.Call.Names[:pos:pos], append([]string{d}, c.Call.Names[pos:]...)...)
 			}
 			c.Gates = map[string]int{}
 			for _, r := range c.Rules {
@@ -94,6 +102,19 @@ func init() {
 			if known >= 2 && (known < len(c.Rules) || unknown > 0) {
 				x.NonTrivial()
 			}
+			dup := false
+			seenName := map[string]bool{}
+			for _, n := range c.Call.Names {
+				if seenName[n] {
+					dup = true
+				}
+				seenName[n] = true
+			}
+			if dup {
+				x.Class("duplicated-name")
+				checkSelectedWithDuplicates(x, c, have)
+				return
+			}
 			in, ok := checkSched(x, c)
 			if ok && len(in.Trace) > 0 {
 				x.Class("ran-something")
@@ -101,6 +122,52 @@ func init() {
 			_ = models.Rule{}
 		},
 	})
+}
+
+// checkSelectedWithDuplicates checks the clauses of C12 that remain defined when a name is
+// repeated: no unselected rule starts, no panic; and - when nothing fails and no tag is set -
+// every named existing rule starts at least once.
+func checkSelectedWithDuplicates(x *Ctx, c *SchedCase, have map[string]bool) {
+	env := newSchedEnv()
+	tg, err := install(c, env)
+	if err != nil {
+		x.Violation("install", "valid generated rule text was rejected: %v", err)
+		return
+	}
+	res := runWithSchedule(x, tg, c.Call, c.Gates, time.Millisecond)
+	if res.Panic != "" {
+		x.Violation("panic/duplicate-names", "call %s panicked: %s", c.Call, truncate(res.Panic, 200))
+		return
+	}
+	named := map[string]bool{}
+	for _, n := range c.Call.Names {
+		named[n] = true
+	}
+	started := map[string]bool{}
+	for _, e := range env.log.Snapshot() {
+		if e.Kind == "S" {
+			started[e.Name] = true
+			if !named[e.Name] {
+				x.Violation("unselected-ran/duplicate-names", "rule %q ran but was not named in %v [call %s]", e.Name, c.Call.Names, c.Call)
+				return
+			}
+		}
+	}
+	quiet := true
+	for _, r := range c.Rules {
+		if named[r.Name] && (r.Fails || r.SetsTag) {
+			quiet = false
+		}
+	}
+	m, _ := gx.Lookup(c.Call.Method)
+	if quiet && m.Shape != gx.ShByEM {
+		for n := range named {
+			if have[n] && !started[n] {
+				x.Violation("named-rule-did-not-run/duplicate-names", "rule %q was named and exists but did not run [call %s]", n, c.Call)
+				return
+			}
+		}
+	}
 }
 
 func TestC12(t *testing.T) { runProp(t, "C12") }
